@@ -214,12 +214,14 @@ CONTRACTS["vpsc.Solver.mostViolated"] = {
         "inv": [
             ("dp_range", "0 <= deletePoint <= n and (deletePoint < _k0 or deletePoint == n)"),
             ("none_iff", "(v is None) == (deletePoint == n)"),
-            ("v_is_elem", "implies(v is not None, v is l[deletePoint] and minSlack == cslack(v) and not v.unsatisfiable)"),
+            ("v_is_elem", "implies(v is not None, v is l[deletePoint] and minSlack == cslack(v) and not v.unsatisfiable and wf_one(v))"),
             ("init_min", "implies(v is None, minSlack == %d)" % MAXSIZE),
             ("minimal", "forall(lambda j: implies(0 <= j < _k0 and not l[j].unsatisfiable, minSlack <= cslack(l[j])))"),
         ]}},
     "ensures": [
         ("most_violated", "most_violated(self, result)"),
+        ("result_wf", "implies(result is not None, wf_one(result))"),
+        ("wf_kept", "wf_constraints(self.inactive)"),
         ("result_unflagged_elem", "implies(result is not None, not result.unsatisfiable and exists(lambda k: 0 <= k < old(len(self.inactive)) and old(self.inactive[k]) is result))"),
         ("same_list_object", "self.inactive is old(self.inactive) and len(self.inactive) == old(len(self.inactive))"),
         ("positional_frame", "forall(lambda j: implies(0 <= j < len(self.inactive), self.inactive[j] is old(self.inactive[j]) or (old(self.inactive[j]) is result and self.inactive[j] is old(self.inactive[len(self.inactive) - 1]))))"),
@@ -355,6 +357,32 @@ def vars_in_blocks(E, P, ctx, vs):
 
 
 SPECFUNS["vars_in_blocks"] = vars_in_blocks
+
+
+def wf_one(E, P, ctx, c):
+    return [(P, Bool(_wf_c(E, P, c)))]
+
+
+def wf_lists(E, P, ctx, s):
+    """G2 (list based): the solver's own constraints (cs and inactive) are well-formed inequalities whose ends live in blocks"""
+    a = wf_constraints(E, P, ctx, rd(E, P, s, "Solver", "cs"))[0][1].t
+    b = wf_constraints(E, P, ctx, rd(E, P, s, "Solver", "inactive"))[0][1].t
+    return [(P, Bool(z3.And(a, b)))]
+
+
+def prewf_list(E, P, ctx, lst, vs):
+    """before the blocks exist: elements of lst are inequalities between non-null variables of positive scale that are
+    elements of vs (ghost inverse index Variable.$vidx)"""
+    i = z3.Const("i!pwl", IntS)
+    c = E.l_get(P, lst, i)
+    l, r = rd(E, P, c, "Constraint", "left"), rd(E, P, c, "Constraint", "right")
+    parts = [c.t != NULL, l.t != NULL, r.t != NULL, z3.Not(rd(E, P, c, "Constraint", "equality").t)]
+    for v in (l, r):
+        parts += [rd(E, P, v, "Variable", "scale").t > 0, _in_vs(E, P, vs, v)]
+    return [(P, Bool(_forall([i], z3.Implies(z3.And(0 <= i, i < E.l_len(P, lst)), z3.And(*parts)), c.t)))]
+
+
+SPECFUNS.update({"wf_one": wf_one, "wf_lists": wf_lists, "prewf_list": prewf_list})
 SPECFUNS.update({"in_vs": in_vs, "all_prewf": all_prewf, "none_active": none_active, "own_inactive": own_inactive,
                  "blocks_kept": blocks_kept})
 SPECFUNS.update({"all_wf": all_wf, "nonnull": nonnull, "inv_cs_except": inv_cs_except, "most_violated": most_violated,
@@ -368,7 +396,7 @@ RESTRUCT = ["Constraint.active", "Constraint.lm", "Constraint.lm$set", "Variable
             "list.len.ref~Variable@vars", "list.elems.ref~Variable@vars", "list.len.ref~Block", "list.elems.ref~Block"]
 CLISTS = ["list.len.ref~Constraint", "list.elems.ref~Constraint", "Constraint.$lastpos", "Constraint.$lastlist"]
 
-_G = ["inv_blk()", "all_wf()"]
+_G = ["inv_blk()"]
 _SOLVER_OK = ["self.cs is not None and self.inactive is not None and self.bs is not None and self.cs is not self.inactive",
               "nonnull(self.cs) and nonnull(self.inactive)"]
 _SOLVER_PRE = ["self.cs is not None and self.inactive is not None and self.cs is not self.inactive", _SOLVER_OK[1]]
@@ -381,6 +409,7 @@ CONTRACTS.update({
         "modifies": RESTRUCT + CLISTS, "allocates": ["Block", "PositionStats", "list"],
         "ensures": _G + [
             "blocks_kept()",
+            "implies(old(wf_constraints(inactive)), wf_constraints(inactive))",
             "len(inactive) >= old(len(inactive)) and nonnull(inactive)",
             "forall(lambda j: implies(0 <= j < old(len(inactive)), inactive[j] is old(inactive[j])))",
             # a constraint is only ever DE-activated here, and then it is appended to `inactive`
@@ -394,7 +423,7 @@ CONTRACTS.update({
     },
     "vpsc.Blocks.merge": {
         "props": ["C05", "C01"], "mode": "assume", "why": "verified separately when Blocks.merge is under contract; assumed at this call site",
-        "requires": _G + ["c is not None and not c.active", "c.left.block is not c.right.block"],
+        "requires": _G + ["c is not None and not c.active", "wf_one(c)", "c.left.block is not c.right.block"],
         "modifies": RESTRUCT,
         "ensures": _G + ["c.active", "blocks_kept()",
                          "forall(lambda d: implies(d is not c, d.active == old(d.active)), 'ref:Constraint')"],
@@ -418,19 +447,19 @@ CONTRACTS.update({
              "ensures": _G + ["blocks_kept()", "isa(result['constraint'], 'Constraint') and old(alloc(result['constraint']))",
                               "old(result['constraint'].active) and not result['constraint'].active",
                               "forall(lambda d: implies(d is not result['constraint'], d.active == old(d.active)), 'ref:Constraint')",
-                              "result['lb'] is not None and result['rb'] is not None",
+                              "result['lb'] is not None and result['rb'] is not None", "wf_one(result['constraint'])",
                               # the block is cut BETWEEN the two variables
                               "vl.block is not vr.block"]},
         ],
     },
     "vpsc.Blocks.__init__": {
         "props": ["C05", "C01"], "mode": "assume", "why": "constructor loop building one block per variable (bounded only)",
-        "requires": ["vs is not None", "inv_blk()", "all_prewf(vs)"],
+        "requires": ["vs is not None", "inv_blk()"],
         "returns": "none", "allocates": ["Block", "PositionStats", "list"],
         # one block per variable of vs; no constraint is touched.  inv_blk survives because the variables of vs carry no
         # ACTIVE constraint when a solver is new (satisfy requires own_inactive(self) in that case)
         "modifies": RESTRUCT + ["Blocks.vs"],
-        "ensures": ["inv_blk()", "all_wf()", "unchanged('Constraint.active')", "self.vs is vs", "self._list is not None",
+        "ensures": ["inv_blk()", "unchanged('Constraint.active')", "self.vs is vs", "self._list is not None",
                     "implies(forall(lambda i: implies(0 <= i < len(vs), vs[i] is not None and vs[i].scale > 0)), vars_in_blocks(vs))",
                     "blocks_kept()"],
     },
@@ -446,21 +475,23 @@ CONTRACTS.update({
                      "implies(self.bs is not None, vars_in_blocks(self.vs))",
                      # either the blocks exist and every constraint is well-formed, or this is a new solver whose
                      # constraints are inactive and whose variables are about to get their blocks
-                     "(self.bs is not None and all_wf()) or (self.bs is None and self.vs is not None and all_prewf(self.vs) and own_inactive(self))"],
+                     "(self.bs is not None and wf_lists(self)) or (self.bs is None and self.vs is not None and prewf_list(self.cs, self.vs) "
+                     "and prewf_list(self.inactive, self.vs) and own_inactive(self))"],
         "modifies": RESTRUCT + CLISTS + ["Constraint.unsatisfiable", "Solver.bs", "Blocks.vs"],
         "loops": {0: {
             "locals": {"v": "ref:Constraint", "lb": "ref:Block", "rb": "ref:Block"},
             "modifies": RESTRUCT + CLISTS + ["Constraint.unsatisfiable"], "allocates": ["Block", "PositionStats", "list"],
-            "inv": [("G1_inv_blk", "inv_blk()"), ("G2_all_wf", "all_wf()"),
+            "inv": [("G1_inv_blk", "inv_blk()"), ("G2_wf_lists", "wf_lists(self)"),
                     ("G5_solver", _SOLVER_OK[0]), ("G5_nonnull", _SOLVER_OK[1]),
                     ("G6_vars_in_blocks", "self.vs is not None and vars_in_blocks(self.vs)"),
                     ("G7_cs_kept", "len(self.cs) == old(len(self.cs)) and forall(lambda i: implies(0 <= i < len(self.cs), self.cs[i] is old(self.cs[i])))"),
                     ("v_typed", "v is None or isa(v, 'Constraint')"),
+                    ("v_wf", "v is None or wf_one(v)"),
                     ("G3_inv_cs", "inv_cs_except(self, v)"),
                     ("G3b_inv_cs_when_kept", "v is None or (cslack(v) < %s and not v.active) or inv_cs_except(self, None)" % ZB),
                     ("G4_most_violated", "most_violated(self, v)")]}},
         "ensures": [("exit.feasible", "feasible(self)"),
-                    ("inv_blk", "inv_blk()"), ("all_wf", "all_wf()"), ("inv_cs", "inv_cs_except(self, None)"),
+                    ("inv_blk", "inv_blk()"), ("wf_lists", "wf_lists(self)"), ("inv_cs", "inv_cs_except(self, None)"),
                     ("solver_ok", " and ".join(_SOLVER_OK)),
                     ("vars_in_blocks", "self.vs is not None and vars_in_blocks(self.vs)"),
                     ("cs_kept", "len(self.cs) == old(len(self.cs)) and forall(lambda i: implies(0 <= i < len(self.cs), self.cs[i] is old(self.cs[i])))")],
@@ -493,7 +524,7 @@ SPECFUNS["cost_of_state"] = cost_of_state
 CONTRACTS["vpsc.Blocks.cost"]["ensures"] = ["result == cost_of_state()"]
 
 _CS_KEPT = "len(self.cs) == old(len(self.cs)) and forall(lambda i: implies(0 <= i < len(self.cs), self.cs[i] is old(self.cs[i])))"
-_SAT_POST = ["feasible(self)", "inv_blk()", "all_wf()", "inv_cs_except(self, None)"] + _SOLVER_OK + ["self.vs is not None and vars_in_blocks(self.vs)", _CS_KEPT]
+_SAT_POST = ["feasible(self)", "inv_blk()", "wf_lists(self)", "inv_cs_except(self, None)"] + _SOLVER_OK + ["self.vs is not None and vars_in_blocks(self.vs)", _CS_KEPT]
 CONTRACTS["vpsc.Solver.solve"] = {
     "props": ["C05", "C01", "C03"], "heap": True,
     "params": {"self": "ref:Solver"},
@@ -501,12 +532,12 @@ CONTRACTS["vpsc.Solver.solve"] = {
     "modifies": CONTRACTS["vpsc.Solver.satisfy"]["modifies"], "allocates": ["Block", "PositionStats", "list"],
     "loops": {0: {"locals": {"lastcost": "real", "cost": "real"},
                   "modifies": CONTRACTS["vpsc.Solver.satisfy"]["modifies"], "allocates": ["Block", "PositionStats", "list"],
-                  "inv": [(n, e) for n, e in zip(["feasible", "inv_blk", "all_wf", "inv_cs", "solver_ok", "nonnull", "vars_in_blocks", "cs_kept"], _SAT_POST)]
+                  "inv": [(n, e) for n, e in zip(["feasible", "inv_blk", "wf_lists", "inv_cs", "solver_ok", "nonnull", "vars_in_blocks", "cs_kept"], _SAT_POST)]
                   + [("cost_is_current", "cost == cost_of_state()")]}},
     "ensures": [("feasible", "feasible(self)"),
                 ("cost_of_reported_positions", "result == cost_of_state()"),
                 ("vars_in_blocks", "self.vs is not None and vars_in_blocks(self.vs)"),
-                ("inv_blk", "inv_blk()"), ("all_wf", "all_wf()"), ("cs_kept", _CS_KEPT)],
+                ("inv_blk", "inv_blk()"), ("wf_lists", "wf_lists(self)"), ("cs_kept", _CS_KEPT)],
     "returns": "real",
 }
 # satisfy is used through its contract at solve's call sites
